@@ -1,4 +1,7 @@
 import CssVerif.Lemmas.Struct
+import CssVerif.Lemmas.StructMedia
+import CssVerif.Lemmas.StructCss
+import CssVerif.Lemmas.StructText
 /-!
 # C04 — syntax errors are contained: only the malformed construct is dropped
 
@@ -12,6 +15,15 @@ Vocabulary (defined in `Lemmas/Struct.lean`, all decidable):
 * `Quiet m stk g` — additionally: no EOF in `g` and no end token of mode `m` at nesting depth 0.
 * `startStack s` — the bracket a start token contributes.
 * `DeclUnit` / `DeclSeq`, `StmtUnit` / `StmtSeq` — complete constructs of a declaration block / of a sheet.
+* wave 3 (`Model/StructCut.lean`, `Lemmas/StructMedia.lean`): `mediaRules O ns ts` — the rules `ts` yields as
+  content of an `@media` block; `MediaUnit` / `MediaSeq` — complete constructs of such a block; `MqShape` — the
+  media query part; `MFrame`, `openToks`, `openRules` — `@media` rules open at a cut, outermost first;
+  `Open` / `Cut` with `Cut.ok` (decides all hypotheses) and `Cut.predict` — truncation certificates;
+  `mediaStmtRules` — what one statement of a media block appends.
+* `sheetToks text doC` (`Model/StructText.lean`) — the token list of `parseString(text)` in the composed model
+  (tokenizer model of C05, then (type, value) projection).
+* `nestCss`, `QuietCss`, `endTokCss`, `plainTokS` (`Lemmas/StructCss.lean`) — CSS-level classification and the
+  guard of the known finding.
 -/
 namespace CssVerif.Props.C04
 open CssVerif.Struct CssVerif.Proto
@@ -297,6 +309,328 @@ example : SelShape [Ex.idt "a"] := ⟨by decide, by decide, by decide, by decide
 example : nest [] ([Ex.idt "color", Ex.colon, Ex.idt "red", Ex.semi] ++ [Ex.idt "top", Ex.colon, Ex.fn "f("])
     = some [K.paren] := by decide
 
+/-! ## T4.4 inside `@media`, at any nesting depth
+
+`mediaRules O ns ts`: the rules the token list `ts` yields as content of an `@media` block (the loop of
+`cssmediarule.py:163-245`; nested `@media` rules are parsed by `mediaRule` with enough fuel, which by
+`media_fuel_irrelevant` is the same as any larger amount).  `MediaUnit` / `MediaSeq`: complete constructs of
+such a block.  `MqShape mq`: the media query part (balanced, no brace, no EOF, no STRING — the named form
+`@media "name" {` is left to the correspondence —, no `;` `}` at depth 0). -/
+
+/-- **Locality of the `@media` block**: after complete units the block parser is back in its start state,
+whatever follows (the analogue of `decls_local` / `sheet_local` one level down). -/
+theorem media_block_local (O : Oracle) (ns : List (Cps × Cps)) (m₁ x : List Tok) (hm : MediaSeq m₁) :
+    mediaRules O ns (m₁ ++ x) = mediaRules O ns m₁ ++ mediaRules O ns x :=
+  mediaRules_append O ns m₁ x hm
+
+/-- the complete `@media` rule, for comparison: the statement `@media mq { m₁ m₂ }` appends one media rule
+whose rules are those of `m₁` followed by those of `m₂` (or the stub `@media all {}` when the media query
+is rejected). -/
+theorem complete_media_rule (O : Oracle) (M : List Cps) (st : SheetSt) (at_ : Tok) (mq : List Tok) (lb : Tok)
+    (m₁ m₂ : List Tok) (rb : Tok)
+    (hat : at_.typ = .mediaSym) (hs : MqShape mq) (hl : lb.val = vLBrace) (hlt : lb.typ = .char)
+    (hm : MediaSeq m₁) (hd : Balanced (m₁ ++ m₂)) (hde : noEof (m₁ ++ m₂) = true)
+    (hr : rb.val = vRBrace) (hrt : rb.typ ≠ .eof) :
+    (stmtEffect O M st at_ (at_ :: (mq ++ lb :: ((m₁ ++ m₂) ++ [rb])))).rules =
+      st.rules ++ [if O.mediaOk mq then
+        Rule.media (some (mq, none)) (mediaRules O st.nsmap m₁ ++ mediaRules O st.nsmap m₂)
+        else Rule.media none []] := by
+  rw [stmtEffect_complete_media O M st at_ mq lb (m₁ ++ m₂) rb hat hs hl hlt hd hde hr hrt,
+    mediaRules_append O st.nsmap m₁ m₂ hm]
+
+/-- T4.4 (an `@media` rule cut off inside its block): after complete statements `s₁` comes `@media mq {`,
+complete units `m₁` of the block, an unfinished rest `junk` that never closes the block, and EOF.  The
+sheet has the rules of `s₁` and then the media rule, closed at EOF, with exactly the rules of `m₁`
+followed by what the unfinished rest yields. -/
+theorem truncated_media_rule (O : Oracle) (M : List Cps) (s₁ : List Tok) (at_ : Tok) (mq : List Tok)
+    (lb : Tok) (m₁ junk : List Tok) (eof : Tok) (stk : List K)
+    (hs₁ : StmtSeq s₁) (hat : at_.typ = .mediaSym) (hv : normalize at_.val = atMedia) (hs : MqShape mq)
+    (hl : lb.val = vLBrace) (hlt : lb.typ = .char) (hm : MediaSeq m₁)
+    (hx : nest [] (m₁ ++ junk) = some stk) (hxe : noEof (m₁ ++ junk) = true) (he : eof.typ = .eof) :
+    (sheetLoop O M {} (s₁ ++ at_ :: (mq ++ lb :: ((m₁ ++ junk) ++ [eof])))).rules =
+      (sheetLoop O M {} s₁).rules ++
+        [if O.mediaOk mq then
+          Rule.media (some (mq, none))
+            (mediaRules O (sheetLoop O M {} s₁).nsmap m₁
+              ++ mediaRules O (sheetLoop O M {} s₁).nsmap (junk ++ [eof]))
+         else Rule.media none []] := by
+  rw [sheetLoop_append O M s₁ _ hs₁,
+    sheetLoop_open_media O M _ at_ mq lb (m₁ ++ junk) eof stk hat hv hs hl hlt hx hxe he,
+    List.append_assoc, mediaRules_append O _ m₁ (junk ++ [eof]) hm]
+
+/-- T4.4 (a style rule inside an `@media` block, cut off inside its declaration block): the content
+`sel { d₁ junk EOF` of a media block yields — iff the selector is accepted — the style rule with exactly the
+declarations of `d₁` followed by what the unfinished rest yields. -/
+theorem truncated_style_in_media (O : Oracle) (ns : List (Cps × Cps)) (t : Tok) (sel' : List Tok) (lb : Tok)
+    (d₁ junk : List Tok) (eof : Tok) (stk : List K)
+    (ht : startsMediaRuleset t = true) (hsel : SelShape (t :: sel'))
+    (hq : Quiet .default [] (t :: sel') = true) (hl : lb.val = vLBrace) (hlt : lb.typ ≠ .eof)
+    (hd : DeclSeq d₁) (hx : nest [] (d₁ ++ junk) = some stk) (hxe : noEof (d₁ ++ junk) = true)
+    (he : eof.typ = .eof) :
+    mediaRules O ns (t :: (sel' ++ lb :: ((d₁ ++ junk) ++ [eof]))) =
+      if O.selOk ns (t :: sel') then
+        [Rule.style ns (t :: sel') (parseDecls O d₁ ++ parseDecls O (junk ++ [eof]))] else [] := by
+  rw [mediaRules_open_style O ns t sel' lb (d₁ ++ junk) eof stk ht hsel hq hl hlt hx hxe he,
+    List.append_assoc, parseDecls_append O d₁ (junk ++ [eof]) hd]
+
+/-- T4.4 (`@media` inside `@media`, cut off inside the inner block): the content `@media mq { m₁ junk EOF` of
+a media block yields the inner media rule, closed at EOF, with the rules of `m₁` and what the rest yields. -/
+theorem truncated_media_in_media (O : Oracle) (ns : List (Cps × Cps)) (at_ : Tok) (mq : List Tok) (lb : Tok)
+    (m₁ junk : List Tok) (eof : Tok) (stk : List K)
+    (hat : at_.typ = .mediaSym) (hv : normalize at_.val = atMedia) (hs : MqShape mq)
+    (hl : lb.val = vLBrace) (hlt : lb.typ = .char) (hm : MediaSeq m₁)
+    (hx : nest [] (m₁ ++ junk) = some stk) (hxe : noEof (m₁ ++ junk) = true) (he : eof.typ = .eof) :
+    mediaRules O ns (at_ :: (mq ++ lb :: ((m₁ ++ junk) ++ [eof]))) =
+      [if O.mediaOk mq then
+        Rule.media (some (mq, none)) (mediaRules O ns m₁ ++ mediaRules O ns (junk ++ [eof]))
+       else Rule.media none []] := by
+  rw [mediaRules_open_media O ns at_ mq lb (m₁ ++ junk) eof stk hat hv hs hl hlt hx hxe he,
+    List.append_assoc, mediaRules_append O ns m₁ (junk ++ [eof]) hm]
+
+/-- **T4.4 at ANY nesting depth.**  `fs` lists the `@media` rules that are open at the cut, outermost
+first; each frame `F` has the complete units `F.done` that stand before it in the enclosing block and its
+head `@media F.mq {` (`MFrame.Ok`).  `openToks fs junk` is the token list (`junk`: the unfinished content of
+the innermost block), `openRules O ns fs inner` the rule list: at every level the rules of the complete
+units, unchanged, then the open media rule closed at EOF containing, recursively, the same for the next
+level.  Together with `truncated_style_in_media` (for `junk = sel { d₁ junk'`) and `media_block_local`
+(for `junk = m₁ ++ junk'`) this is the truncation clause of the property for every nesting depth. -/
+theorem truncation_nested_media (O : Oracle) (ns : List (Cps × Cps)) (fs : List MFrame) (junk : List Tok)
+    (eof : Tok) (stk : List K)
+    (hf : ∀ F ∈ fs, F.Ok) (hj : nest [] junk = some stk) (hje : noEof junk = true) (he : eof.typ = .eof) :
+    mediaRules O ns (openToks fs junk ++ [eof]) = openRules O ns fs (mediaRules O ns (junk ++ [eof])) :=
+  mediaRules_open O ns fs junk eof stk hf hj hje he
+
+/-- … and from the sheet level: complete statements `s₁`, an `@media` rule open at the cut, inside it the
+frames `fs`, innermost the unfinished `junk`. -/
+theorem truncation_nested (O : Oracle) (M : List Cps) (s₁ : List Tok) (at_ : Tok) (mq : List Tok) (lb : Tok)
+    (fs : List MFrame) (junk : List Tok) (eof : Tok) (stk : List K)
+    (hs₁ : StmtSeq s₁) (hat : at_.typ = .mediaSym) (hv : normalize at_.val = atMedia) (hs : MqShape mq)
+    (hl : lb.val = vLBrace) (hlt : lb.typ = .char)
+    (hf : ∀ F ∈ fs, F.Ok) (hj : nest [] junk = some stk) (hje : noEof junk = true) (he : eof.typ = .eof) :
+    (sheetLoop O M {} (s₁ ++ at_ :: (mq ++ lb :: (openToks fs junk ++ [eof])))).rules =
+      (sheetLoop O M {} s₁).rules ++
+        [if O.mediaOk mq then
+          Rule.media (some (mq, none))
+            (openRules O (sheetLoop O M {} s₁).nsmap fs
+              (mediaRules O (sheetLoop O M {} s₁).nsmap (junk ++ [eof])))
+         else Rule.media none []] := by
+  obtain ⟨s, hn, hne⟩ := openToks_nest fs junk stk hf hj hje
+  rw [sheetLoop_append O M s₁ _ hs₁,
+    sheetLoop_open_media O M _ at_ mq lb (openToks fs junk) eof s hat hv hs hl hlt hn hne he,
+    mediaRules_open O _ fs junk eof stk hf hj hje he]
+
+-- non-vacuity: the frame `a{} @media print{` (one complete unit `a{}`, then the head of an open rule) …
+example : MFrame.Ok ⟨[Ex.idt "a", Ex.lbrace, Ex.rbrace], ⟨.mediaSym, cps "@media", 0⟩,
+    [Ex.sp, Ex.idt "print"], Ex.lbrace⟩ :=
+  { seq := MediaSeq.single (MediaUnit.stmt (Ex.idt "a") [Ex.lbrace] Ex.rbrace [K.brace]
+      (by decide) (by decide) (by decide) (by decide) (by decide) (by decide) (by decide))
+    bal := by decide, ne := by decide, atT := rfl, atV := by decide
+    mq := ⟨by decide, by decide, by decide, by decide, by decide⟩, lbV := rfl, lbT := rfl }
+-- … the at-keyword may be spelled with escapes / upper case (`@\MEDIA`) …
+example : normalize (cps "@\\MEDIA") = atMedia := by decide
+-- … and an unfinished innermost content `b{c:d;e` (selector, `{`, one complete declaration, a started one)
+example : nest [] [Ex.idt "b", Ex.lbrace, Ex.idt "c", Ex.colon, Ex.idt "d", Ex.semi, Ex.idt "e"] = some [K.brace]
+    ∧ startsMediaRuleset (Ex.idt "b") = true ∧ SelShape [Ex.idt "b"] :=
+  ⟨by decide, by decide, ⟨by decide, by decide, by decide, by decide, by decide⟩⟩
+-- two open frames: the token list is `a{} @media print{ a{} @media print{ b{c:d;e`
+example : (openToks [⟨[Ex.idt "a", Ex.lbrace, Ex.rbrace], ⟨.mediaSym, cps "@media", 0⟩, [Ex.sp, Ex.idt "print"], Ex.lbrace⟩,
+      ⟨[], ⟨.mediaSym, cps "@media", 0⟩, [], Ex.lbrace⟩] [Ex.idt "b"]).length = 10 := by decide
+
+/-- **T4.4, certified form** (`Model/StructCut.lean`): a certificate `c` divides a truncated sheet into
+complete statements `c.s₁` and the construct `c.o` that is open at the end of input — an `@media` rule with
+its complete units and, recursively, the open construct inside it; a style rule with its complete
+declarations; or an undivided rest —, `Cut.ok` decides every hypothesis of the theorems above (unit shapes,
+selector / media query shapes, well nested contents), and `Cut.predict` is the rule list: all rules of the
+complete statements, then the open rules closed at EOF with exactly their complete inner rules /
+declarations, to any depth.  The driver request `cut` builds a certificate for the token list of a REAL
+truncated sheet, evaluates `Cut.ok` and answers with `Cut.predict`; the harness compares it with the DOM of
+`parseString` (phase `truncate`, kinds `cut:*`). -/
+theorem truncation_certified (O : Oracle) (M : List Cps) (c : Cut) (h : c.ok = true) :
+    (sheetLoop O M {} c.toks).rules = c.predict O M :=
+  Cut.predict_sound O M c h
+
+/-- the certificate search of the driver (`findCut`) is faithful: for every non-empty token list it returns a
+division of exactly that list — so on every input the only thing that decides whether the prediction applies
+is the verified check `Cut.ok`; the search itself needs no trust. -/
+theorem certificate_search_faithful (O : Oracle) (M : List Cps) (ts : List Tok) (h : ts ≠ []) :
+    ∃ c, findCut ts = some c ∧ c.toks = ts ∧
+      (c.ok = true → (sheetLoop O M {} ts).rules = c.predict O M) := by
+  obtain ⟨c, hc, ht⟩ := findCut_toks ts h
+  exact ⟨c, hc, ht, fun hok => ht ▸ Cut.predict_sound O M c hok⟩
+
+-- non-vacuity: the tokens of `a{} @media print{b{} @media print{c{d:e;f` get a certificate of shape
+-- media > media > style with one complete unit at each level, and it passes the check
+example : ((findCut [Ex.idt "a", Ex.lbrace, Ex.rbrace, ⟨.mediaSym, cps "@media", 0⟩, Ex.sp, Ex.idt "print", Ex.lbrace,
+      Ex.idt "b", Ex.lbrace, Ex.rbrace, ⟨.mediaSym, cps "@media", 0⟩, Ex.sp, Ex.idt "print", Ex.lbrace,
+      Ex.idt "c", Ex.lbrace, Ex.idt "d", Ex.colon, Ex.idt "e", Ex.semi, Ex.idt "f", Ex.eof]).map
+      fun c => (c.ok, c.o.shape, c.s₁.length)) = some (true, "media>media>style", 1) := by decide
+
+/-! ## T4.3 inside `@media`, at any nesting depth
+
+`mediaStmtRules O ns t stmt`: what the statement production of an `@media` block (`atrule` / `ruleset`,
+`cssmediarule.py:171-220`) appends for the collected statement `stmt` that starts with `t`. -/
+
+/-- T4.3 in a media block: `m₁` complete units; a statement `t :: g ++ [e]` of the usual shape that yields no
+rule (cases below); then ANYTHING.  The block parses exactly as without the statement. -/
+theorem media_stmt_containment (O : Oracle) (ns : List (Cps × Cps)) (m₁ m₂ : List Tok) (t : Tok)
+    (g : List Tok) (e : Tok) (stk' : List K) (hm : MediaSeq m₁)
+    (h1 : t.typ ≠ .s) (h2 : t.typ ≠ .comment) (h3 : t.typ ≠ .eof)
+    (hq : Quiet .default (startStack t) g = true) (hn : nest (startStack t) g = some stk')
+    (hp : push stk' e = some []) (he : endTok .default e = true)
+    (hdrop : mediaStmtRules O ns t (t :: g ++ [e]) = []) :
+    mediaRules O ns (m₁ ++ (t :: g ++ [e]) ++ m₂) = mediaRules O ns (m₁ ++ m₂) :=
+  mediaRules_drop_stmt O ns m₁ m₂ t g e stk' hm h1 h2 h3 hq hn hp he hdrop
+
+/-- dropped in a media block (i): a ruleset whose selector is invalid or whose structure is broken -/
+theorem dropped_in_media_invalid_ruleset (O : Oracle) (ns : List (Cps × Cps)) (t : Tok) (stmt : List Tok)
+    (ht : startsMediaRuleset t = true) (hbad : styleRule O ns stmt = none) :
+    mediaStmtRules O ns t stmt = [] := by
+  rw [mediaStmtRules_ruleset O ns t stmt ht, hbad]
+
+/-- dropped in a media block (ii): `@charset ` / `@font-face` / `@import` / `@namespace` / `@variables`
+(by the normalised at-keyword) are not allowed there: parsed, consumed, nothing inserted -/
+theorem dropped_in_media_misplaced (O : Oracle) (ns : List (Cps × Cps)) (t : Tok) (stmt : List Tok)
+    (ht : isMediaAt t = true) (hf : mediaForbidden.contains (normalize t.val) = true) :
+    mediaStmtRules O ns t stmt = [] :=
+  mediaStmtRules_forbidden O ns t stmt ht hf
+
+/-- an unknown at-rule in a media block: the only effect is the rule itself, iff it is well formed -/
+theorem unknown_atrule_in_media (O : Oracle) (ns : List (Cps × Cps)) (t : Tok) (stmt : List Tok)
+    (ht : isMediaAt t = true) (hf : mediaForbidden.contains (normalize t.val) = false)
+    (hp : normalize t.val ≠ atPage) (hm : normalize t.val ≠ atMedia) :
+    mediaStmtRules O ns t stmt = if unknownOk stmt then [Rule.unknown stmt] else [] :=
+  mediaStmtRules_unknown O ns t stmt ht hf hp hm
+
+/-- **lifting through one `@media` level (inside a media block)**: if two block contents `x`, `y` yield the
+same rules, the enclosing blocks `m₁ @media mq { x } m₂` and `m₁ @media mq { y } m₂` yield the same rules.
+With `media_stmt_containment` at the innermost level this is containment at every nesting depth. -/
+theorem containment_lifts_through_media (O : Oracle) (ns : List (Cps × Cps)) (m₁ m₂ : List Tok) (at_ : Tok)
+    (mq : List Tok) (lb : Tok) (x y : List Tok) (rb : Tok) (hm : MediaSeq m₁)
+    (hat : at_.typ = .mediaSym) (hv : normalize at_.val = atMedia) (hs : MqShape mq)
+    (hl : lb.val = vLBrace) (hlt : lb.typ = .char) (hr : rb.val = vRBrace) (hrt : rb.typ ≠ .eof)
+    (hx : Balanced x) (hxe : noEof x = true) (hy : Balanced y) (hye : noEof y = true)
+    (hxy : mediaRules O ns x = mediaRules O ns y) :
+    mediaRules O ns (m₁ ++ (at_ :: (mq ++ lb :: x) ++ [rb]) ++ m₂) =
+      mediaRules O ns (m₁ ++ (at_ :: (mq ++ lb :: y) ++ [rb]) ++ m₂) := by
+  obtain ⟨ux, rx⟩ := mediaRules_complete_media O ns at_ mq lb x rb hat hv hs hl hlt hx hxe hr hrt
+  obtain ⟨uy, ry⟩ := mediaRules_complete_media O ns at_ mq lb y rb hat hv hs hl hlt hy hye hr hrt
+  rw [List.append_assoc, mediaRules_append O ns m₁ _ hm, mediaRules_append O ns _ m₂ (MediaSeq.single ux), rx,
+    List.append_assoc, mediaRules_append O ns m₁ _ hm, mediaRules_append O ns _ m₂ (MediaSeq.single uy), ry, hxy]
+
+/-- **lifting to the sheet**: … and the sheets `s₁ @media mq { x } s₂` and `s₁ @media mq { y } s₂` parse to
+the same DOM (rules, namespaces, order level), for ANY `s₂`. -/
+theorem containment_lifts_to_sheet (O : Oracle) (M : List Cps) (s₁ s₂ : List Tok) (at_ : Tok)
+    (mq : List Tok) (lb : Tok) (x y : List Tok) (rb : Tok) (hs₁ : StmtSeq s₁)
+    (hat : at_.typ = .mediaSym) (hv : normalize at_.val = atMedia) (hs : MqShape mq)
+    (hl : lb.val = vLBrace) (hlt : lb.typ = .char) (hr : rb.val = vRBrace) (hrt : rb.typ ≠ .eof)
+    (hx : Balanced x) (hxe : noEof x = true) (hy : Balanced y) (hye : noEof y = true)
+    (hxy : mediaRules O (sheetLoop O M {} s₁).nsmap x = mediaRules O (sheetLoop O M {} s₁).nsmap y) :
+    parseSheet O M (s₁ ++ (at_ :: (mq ++ lb :: x) ++ rb :: s₂)) =
+      parseSheet O M (s₁ ++ (at_ :: (mq ++ lb :: y) ++ rb :: s₂)) := by
+  unfold parseSheet
+  rw [sheetLoop_append O M s₁ _ hs₁, sheetLoop_append O M s₁ _ hs₁,
+    sheetLoop_complete_media O M _ at_ mq lb x rb s₂ hat hv hs hl hlt hx hxe hr hrt,
+    sheetLoop_complete_media O M _ at_ mq lb y rb s₂ hat hv hs hl hlt hy hye hr hrt, hxy]
+
+-- non-vacuity: `$ x { }` inside a media block is a statement of the stated shape that starts a ruleset, and an
+-- oracle that rejects its selector drops it; `@import "a";` is not allowed there
+example : startsMediaRuleset (Ex.ch 0x24) = true
+    ∧ styleRule Ex.no [] [Ex.ch 0x24, Ex.idt "x", Ex.lbrace, Ex.rbrace] = none
+    ∧ isMediaAt (Ex.imp "@import") = true
+    ∧ mediaForbidden.contains (normalize (Ex.imp "@import").val) = true := by decide
+
+/-! ## T4.5 text level: composition with the tokenizer model of C05
+
+`sheetToks text doC` (`Lemmas/StructText.lean`): the token list `parseString(text)` hands to the sheet
+dispatcher — the yielded tokens of `Tok.tokenize text true doC` (C05's model of `tokenize2.py`), projected to
+(type, value).  "Constructs left open at the end of the input are closed there": the tokenizer closes an open
+comment / string / `url(` inside the LAST token and appends exactly one EOF token (C05 T5.1, `found_is_span`),
+the structure level closes open blocks at that EOF token (T4.4). -/
+
+/-- T4.5 (domain): for EVERY text the token list is `body ++ [eof]` with exactly one EOF token, last — the
+EOF hypotheses of all T4.4 theorems hold for every real input (from C05's totality / `eof_once` argument). -/
+theorem text_tokens_domain (text : Cps) (doC : Bool) :
+    ∃ body eof, sheetToks text doC = body ++ [eof] ∧ eof.typ = .eof ∧ noEof body = true :=
+  let ⟨b, e, h1, h2, h3, _⟩ := sheetToks_shape text doC
+  ⟨b, e, h1, h2, h3⟩
+
+/-- T4.5 (a cut in the token list is a cut in the text): the tokenizer's steps tile the text (C05 T5.2), so
+the steps behind any prefix of the token list consumed exactly a prefix of the text. -/
+theorem token_cut_is_text_cut (text : Cps) (doC : Bool) (a b : List CssVerif.Tok.Item)
+    (h : (CssVerif.Tok.tokenize text true doC).items = a ++ b) :
+    text = CssVerif.Tok.spans a ++ CssVerif.Tok.spans b :=
+  items_split_text text doC a b h
+
+/-- T4.4 + T4.5, `@media` rule open at the end of a TEXT: if the tokens of `text` are complete statements
+`s₁`, then `@media mq {`, complete units `m₁` and an unfinished rest `junk` — no hypothesis about EOF: the
+last token is the tokenizer's EOF and there is no other — the parsed sheet has the rules of `s₁` and the media
+rule, closed, with exactly the rules of `m₁` and then what the rest yields. -/
+theorem text_truncated_media_rule (O : Oracle) (M : List Cps) (text : Cps) (doC : Bool) (s₁ : List Tok)
+    (at_ : Tok) (mq : List Tok) (lb : Tok) (m₁ junk : List Tok) (e : Tok) (stk : List K)
+    (ht : sheetToks text doC = s₁ ++ at_ :: (mq ++ lb :: ((m₁ ++ junk) ++ [e])))
+    (hs₁ : StmtSeq s₁) (hat : at_.typ = .mediaSym) (hv : normalize at_.val = atMedia) (hs : MqShape mq)
+    (hl : lb.val = vLBrace) (hlt : lb.typ = .char) (hm : MediaSeq m₁)
+    (hx : nest [] (m₁ ++ junk) = some stk) :
+    (sheetLoop O M {} (sheetToks text doC)).rules =
+      (sheetLoop O M {} s₁).rules ++
+        [if O.mediaOk mq then
+          Rule.media (some (mq, none))
+            (mediaRules O (sheetLoop O M {} s₁).nsmap m₁
+              ++ mediaRules O (sheetLoop O M {} s₁).nsmap (junk ++ [e]))
+         else Rule.media none []] := by
+  have hsplit : sheetToks text doC = (s₁ ++ at_ :: (mq ++ lb :: (m₁ ++ junk))) ++ [e] := by
+    rw [ht]; simp
+  obtain ⟨he, hne⟩ := sheetToks_open text doC _ e hsplit
+  have hxe : noEof (m₁ ++ junk) = true := by
+    simp only [noEof, List.all_append, List.all_cons, Bool.and_eq_true] at hne ⊢
+    exact hne.2.2.2.2
+  rw [ht]
+  exact truncated_media_rule O M s₁ at_ mq lb m₁ junk e stk hs₁ hat hv hs hl hlt hm hx hxe he
+
+/-- T4.4 + T4.5, certified form at text level: a checked certificate for the token list of ANY text predicts
+the rule list of `parseString(text)` in the composed model (tokenizer model, then structure model). -/
+theorem text_truncation_certified (O : Oracle) (M : List Cps) (text : Cps) (doC : Bool) (c : Cut)
+    (hc : c.toks = sheetToks text doC) (hok : c.ok = true) :
+    (sheetLoop O M {} (sheetToks text doC)).rules = c.predict O M := by
+  rw [← hc]; exact Cut.predict_sound O M c hok
+
+/-- `_partial` — T4.5, the cut itself.  Full statement wanted by the property:
+
+    text = a ++ b, `pre` = the tokens of `a ++ b` that end at or before a token boundary `≤ |a|` of the uncut
+    text (and, in full-sheet mode, do not change under end-of-input completion) ⊢
+    `sheetToks a = pre ++ post'` and `sheetToks (a ++ b) = pre ++ post`
+
+which is the tokenizer's cut property — proved by C05 in this round for the partial-sheet loop
+(`tokenize_cut`, `Lemmas/TokAppend.lean` on branch build3-C05: no separation predicate, the only hypothesis is
+`spans pre = a₁`) together with the bridge to full-sheet mode (`full_sheet_completion`, Props/C05 §T5.8: the
+full-sheet body is the partial-sheet body, or its prefix up to the ONE token that end-of-input completion
+replaces — INVALID → STRING, FUNCTION `url(` → URI, CHAR `/` → COMMENT).  Both live on the other branch, so
+the composition (`pre` = the partial-sheet tokens before both the boundary `|a₁|` and the completion point)
+is left for after the merge.  Proved here: GIVEN that the two token lists share the prefix `pre`, every rule of the complete
+statements `s₁` inside `pre` is present, in order, unchanged (up to the URI of `@namespace` rules) in the DOM
+of the truncated text AND in the DOM of the full text. -/
+theorem text_truncation_partial (O : Oracle) (M : List Cps) (a b : Cps) (doC : Bool)
+    (pre post post' s₁ rest : List Tok)
+    (hfull : sheetToks (a ++ b) doC = pre ++ post) (hcut : sheetToks a doC = pre ++ post')
+    (hpre : pre = s₁ ++ rest) (hs : StmtSeq s₁) :
+    ∃ more more',
+      (sheetLoop O M {} (sheetToks (a ++ b) doC)).rules.map eraseUri =
+        (sheetLoop O M {} s₁).rules.map eraseUri ++ more ∧
+      (sheetLoop O M {} (sheetToks a doC)).rules.map eraseUri =
+        (sheetLoop O M {} s₁).rules.map eraseUri ++ more' := by
+  subst hpre
+  obtain ⟨m, hm⟩ := truncation_keeps_rules O M s₁ (rest ++ post) hs
+  obtain ⟨m', hm'⟩ := truncation_keeps_rules O M s₁ (rest ++ post') hs
+  refine ⟨m, m', ?_, ?_⟩
+  · rw [hfull, List.append_assoc]; exact hm
+  · rw [hcut, List.append_assoc]; exact hm'
+
+-- non-vacuity (a test, evaluated by the kernel): the text `a{}b{` is tokenized by the C05 model into
+-- IDENT CHAR CHAR IDENT CHAR EOF, i.e. the complete statement `a{}` and a style rule open at EOF
+example : (sheetToks (cps "a{}b{") true).map (fun t => (t.typ, t.val)) =
+    [(.ident, cps "a"), (.char, cps "{"), (.char, cps "}"), (.ident, cps "b"), (.char, cps "{"), (.eof, [])] := by
+  decide +kernel
+
 /-! ## the model's only fuel (nesting depth of `@media` in `@media`) never runs out -/
 
 /-- noFuel: more fuel than tokens is always enough — the result does not depend on the amount, and it is
@@ -308,20 +642,55 @@ theorem media_fuel_irrelevant (O : Oracle) (ns : List (Cps × Cps)) (f₁ f₂ :
 
 /-! ## known finding `C04-escaped-delimiter-ident`
 
-All theorems above classify brackets the way `_tokensupto2` does: by token VALUE.  The tokenizer unescapes
-identifiers, so `\7b ` is an IDENT token with value `{`, which the code (and therefore `Tok.br`, `nest`,
-`Balanced`) counts as an opening brace although in CSS it is a plain identifier.  Full statement wanted
-by the property (brackets = CHAR tokens and FUNCTION, `Tok.cssBr`):
+All theorems above classify brackets and end tokens the way `_tokensupto2` does: by token VALUE.  The
+tokenizer unescapes identifiers, so `\7b ` is an IDENT token with value `{`, which the code (and therefore
+`Tok.br`, `nest`, `Balanced`, `Quiet`, `endTok`) counts as an opening brace although in CSS it is a plain
+identifier.  Full statement wanted by the property (brackets and end tokens = CHAR tokens, FUNCTION opens
+a parenthesis: `Tok.cssBr`, `nestCss`, `QuietCss`, `endTokCss` of `Lemmas/StructCss.lean`):
 
-    theorem upto_balanced_css : BalancedCss g → … → upto m none (g ++ e :: rest) = (g ++ [e], rest)
+    theorem upto_balanced_css : QuietCss m stk₀ g → nestCss stk₀ g = some stk' → pushCss stk' e = some [] →
+      endTokCss m e → upto m none (g ++ e :: rest) = (g ++ [e], rest)
 
-It is FALSE for the code; it holds under the guard that no non-CHAR token has a bracket as its value, because
-then the two classifications coincide: -/
+It is FALSE for the code (witness below); it holds under the guard that no non-CHAR token has a delimiter as
+its value (`plainTokS`), because then the two classifications coincide.  The proposed tokenizer repair
+`proposed-fixes/C04-escaped-delimiter-kept.diff` (a hex escape that decodes to a delimiter stays escaped)
+makes the guard an invariant of the token lists the parser sees. -/
 
-/-- `_partial`: under the guard `plainTok` the value-based classification is the CSS one, so every theorem
-of this file reads as a statement about CSS-level balance. -/
+/-- `_partial` (per token): under the guard `plainTok` the value-based bracket classification is the CSS one. -/
 theorem bracket_classification_partial (t : Tok) (h : plainTok t = true) : t.br = t.cssBr :=
   br_eq_cssBr t h
+
+/-- `_partial` (T4.1 at CSS level): for token lists that satisfy the guard `plainTokS`, a stretch that is
+quiet and well nested in the CSS sense, followed by a CSS-level end token that closes it, is taken exactly. -/
+theorem upto_balanced_css_partial (m : Mode) (stk₀ stk' : List K) (g : List Tok) (e : Tok) (rest : List Tok)
+    (hm : m.initStack = some stk₀) (hplain : ∀ t ∈ g ++ [e], plainTokS t = true)
+    (hq : QuietCss m stk₀ g = true) (hn : nestCss stk₀ g = some stk') (hp : pushCss stk' e = some [])
+    (he : endTokCss m e = true) :
+    upto m none (g ++ e :: rest) = (g ++ [e], rest) := by
+  have hg : ∀ t ∈ g, plainTokS t = true := fun t ht => hplain t (List.mem_append_left _ ht)
+  have hpe : plainTokS e = true := hplain e (by simp)
+  refine upto_none_end m stk₀ stk' g e rest hm ?_ ?_ ?_ ?_
+  · rw [quiet_eq_quietCss m stk₀ g hg]; exact hq
+  · rw [nest_eq_nestCss stk₀ g hg]; exact hn
+  · rw [push_eq_pushCss stk' e hpe]; exact hp
+  · rw [plainTokS_end m e hpe]; exact he
+
+/-- the same lifting for whole token lists: under the guard, `nest` / `Quiet` (the vocabulary of every theorem of
+this file) ARE the CSS-level notions, so all of T4.2–T4.4 read as statements about CSS-level balance. -/
+theorem css_level_reading_partial (m : Mode) (stk : List K) (g : List Tok) (h : ∀ t ∈ g, plainTokS t = true) :
+    nest stk g = nestCss stk g ∧ Quiet m stk g = QuietCss m stk g :=
+  ⟨nest_eq_nestCss stk g h, quiet_eq_quietCss m stk g h⟩
+
+-- non-vacuity: `( x ; [ y ] )` satisfies the guard and is quiet / well nested at CSS level
+example : (∀ t ∈ [Ex.lparen, Ex.idt "x", Ex.semi, Ex.lbrack, Ex.idt "y", Ex.rbrack, Ex.rparen] ++ [Ex.semi],
+      plainTokS t = true)
+    ∧ QuietCss .semicolon [] [Ex.lparen, Ex.idt "x", Ex.semi, Ex.lbrack, Ex.idt "y", Ex.rbrack, Ex.rparen] = true
+    ∧ nestCss [] [Ex.lparen, Ex.idt "x", Ex.semi, Ex.lbrack, Ex.idt "y", Ex.rbrack, Ex.rparen] = some []
+    ∧ pushCss [] Ex.semi = some [] ∧ endTokCss .semicolon Ex.semi = true := by decide
+-- the guard excludes exactly the tokens of the finding: IDENT `{`, IDENT `;`, HASH-like `:` …
+example : plainTokS ⟨.ident, vLBrace, 0⟩ = false ∧ plainTokS ⟨.ident, vSemi, 0⟩ = false
+    ∧ plainTokS ⟨.other, vColon, 0⟩ = false ∧ plainTokS (Ex.idt "x") = true ∧ plainTokS Ex.lbrace = true := by
+  decide
 
 /-- the witness `a{\7b :1;color:red} b{c:d}`: the IDENT `{` violates the guard and is counted as a brace … -/
 example : plainTok ⟨.ident, vLBrace, 0⟩ = false ∧ (⟨.ident, vLBrace, 0⟩ : Tok).br = .op .brace
